@@ -757,7 +757,15 @@ class Interp(object):
                 got = self.from_import(env['__rel__'], s, nm)
                 env[nm] = got if got is not None else External(a.name)
         elif isinstance(s, ast.Raise):
-            raise Raised('raise %s' % (M.unparse(s.exc)[:80] if s.exc is not None else ''), s, env.get('__rel__'))
+            r_ = Raised('raise %s' % (M.unparse(s.exc)[:80] if s.exc is not None else ''), s, env.get('__rel__'))
+            # the evaluated arguments of the exception (its message), when they can be computed: rules about what an error says read them
+            r_.args_values = None
+            if isinstance(s.exc, ast.Call):
+                try:
+                    r_.args_values = [self.ev(a_, env) for a_ in s.exc.args]
+                except Exception:
+                    r_.args_values = None
+            raise r_
         elif isinstance(s, ast.Break):
             raise _Break()
         elif isinstance(s, ast.Continue):
